@@ -78,6 +78,9 @@ func GetAtomFileInfo(atm atom.Atom) ([]FileInfo, error) {
 	for lineno, line := range lines {
 		lineno++
 		entry := FileInfo{}
+		if len(line) < 4 {
+			return nil, fmt.Errorf("short line in CONTENTS line %d of %s", lineno, ca)
+		}
 		typeInd := line[:4]
 		tail := line[4:]
 		switch typeInd {
